@@ -564,6 +564,9 @@ def rule_schedule_direction(ctx, rule='R06.12'):
 
 
 def run(ctx):
+    from . import protocol
+    protocol.rule_filename_replaced(ctx, 'R06.14')       # re-arming the archive with another file writes to that file
+    protocol.rule_diff_truth_table(ctx, 'R17.10')        # a snapshot is a delta: one-sided NaN is a difference
     from . import edges
     edges.rule_snapshot_index(ctx, 'R06.13')         # snapshot k is snapshot k for every index
     edges.rule_time_direction(ctx, 'R08.12')         # time may be negative and may run backwards: the schedule
